@@ -769,7 +769,18 @@ class Evaluator:
                 return hook(self, owner, attr)
             if isinstance(val, ast.Name) and val.id in owner.methods:
                 return FuncRef(owner.methods[val.id])
-            return self.eval(val, State(), Ctx(owner.module, None, None, ctx.depth + 1))
+            # a class body sees the names defined earlier in the same body (ALL = RANGE | ZERO_UP | ...)
+            scope = State()
+            used = {n.id for n in ast.walk(val) if isinstance(n, ast.Name)}
+            for other in owner.attr_order:
+                if other == attr:
+                    break
+                if other in used and owner.attrs[other][1] is not None:
+                    try:
+                        scope.env[other] = self.class_attr(owner, other, ctx)
+                    except Undecided:
+                        pass
+            return self.eval(val, scope, Ctx(owner.module, None, None, ctx.depth + 1))
         m = self.prog.find_method(ci, attr)
         if m is not None:
             return FuncRef(m)
